@@ -125,8 +125,9 @@ def decodeIntegerValuesEb (kind numEntries nc : Nat) (md : MeshData) (pointIds :
   | .texCoords =>
     let numOrient ← rdI32
     require (decide (numOrient ≥ 0))
+    -- not more orientations than corners (`fix:` commit 008c24a)
+    require (numOrient.toNat ≤ 3 * md.t.numFaces)
     alloc "tex_coords_portable.orientations" (numOrient.toNat / 8)
-    if numOrient.toNat > 64 * modelCap then failWith (.unsupported "tex-coords prediction: orientation count beyond the model's limit") else
     let d ← lift (ransBitStart false)
     let bits := (rabsReadBits d.probZero numOrient.toNat d.ans []).1
     -- `if (!bit) last = !last`
